@@ -25,9 +25,9 @@ Tracked == JsonDeserialize(IOEnv.TRACKED_FILE)     \* Seq of [name, kind]
 VARIABLES phase, exp, ver, rver
 vars == <<phase, exp, ver, rver>>
 
-Mutators == {"reorder", "sort_by", "append", "array_write", "ds_sort_by"}
+Mutators == {"reorder", "sort_by", "sort_same", "append", "array_write", "ds_sort_by"}
 Applicable(m, kind) ==
-  CASE m \in {"reorder", "sort_by", "append"} -> kind = "RDMs"
+  CASE m \in {"reorder", "sort_by", "sort_same", "append"} -> kind = "RDMs"
     [] m = "ds_sort_by" -> kind \in {"Dataset", "TemporalDataset"}
     [] m = "array_write" -> kind \in {"RDMs", "Dataset", "TemporalDataset", "ndarray"}
     [] OTHER -> FALSE
